@@ -783,3 +783,73 @@ func TestReadFrameHugeCuts(t *testing.T) {
 	hx.EvalN(n)
 	hx.Part("reader: one frame > 1 MiB cut at 0, 1, 2, 3, 4 MiB of payload (+-1) and one byte before its end x {EOF, error} x {ReadFrame, ReadMessage} x masked", int64(n), true)
 }
+
+// TestReadMessageControlBetweenFragments: a control frame between the fragments
+// of a message - a Close included - does not end the message: if the stream
+// stops anywhere before the final fragment is complete, ReadMessage (which
+// collects control frames instead of acting on them) reports an error, never a
+// message; the uncut stream yields the control messages and the whole message.
+func TestReadMessageControlBetweenFragments(t *testing.T) {
+	n := 0
+	for _, masked := range []bool{false, true} {
+		state := ws.StateClientSide
+		if masked {
+			state = ws.StateServerSide
+		}
+		mk := func(op byte, fin bool, k int, p []byte) ref.Frame {
+			h := ref.Header{Fin: fin, Op: op, Masked: masked}
+			if masked {
+				h.Mask = [4]byte{byte(k), 0x3d, 0x52, 0x17}
+			}
+			return ref.Frame{H: h, Payload: p}
+		}
+		ctls := []ref.Frame{
+			mk(ref.OpClose, true, 1, nil),
+			mk(ref.OpClose, true, 2, []byte{0x03, 0xe8}),
+			mk(ref.OpClose, true, 3, append([]byte{0x03, 0xe9}, "going away"...)),
+			mk(ref.OpPing, true, 4, []byte("ping")),
+			mk(ref.OpPong, true, 5, nil),
+		}
+		for ci, ctl := range ctls {
+			for _, first := range [][]byte{[]byte("ab"), {}} {
+				frames := []ref.Frame{mk(ref.OpText, false, 7, first), ctl, mk(ref.OpCont, false, 8, []byte("cd")), mk(ref.OpCont, true, 9, []byte("ef"))}
+				wire := ref.EncodeAll(frames)
+				want := string(first) + "cdef"
+				for _, chunks := range [][]int{nil, {1}, {3}} {
+					// uncut
+					ms, err := wsutil.ReadMessage(tx.NewSrc(wire, chunks), state, nil)
+					n++
+					if err != nil || len(ms) != 2 || ms[0].OpCode != ws.OpCode(ctl.H.Op) || string(ms[0].Payload) != string(ctl.Payload) || string(ms[1].Payload) != want {
+						hx.Failf(t, map[string]interface{}{"frames": ref.Describe(frames), "chunks": chunks}, "ReadMessage over the whole stream: err=%v messages=%v, want the control frame and %q", err, ms, want)
+						return
+					}
+					for cut := 1; cut < len(wire); cut++ {
+						for _, fault := range []error{io.EOF, tx.ErrInjected} {
+							for _, withData := range []bool{false, true} {
+								src := tx.NewSrc(wire[:cut], chunks)
+								src.End, src.EOFWithData = fault, withData && fault == io.EOF
+								ms, err := wsutil.ReadMessage(src, state, nil)
+								n++
+								desc := map[string]interface{}{"frames": ref.Describe(frames), "cut_at": cut, "of": len(wire), "ends_with": fmt.Sprint(fault), "chunks": chunks, "masked": masked}
+								hx.NonTrivial(hx.Hash("ctl-between", ci, len(first), cut, fault == io.EOF, len(chunks), masked, withData), func() interface{} { return desc })
+								if err == nil {
+									hx.Failf(t, desc, "ReadMessage reported success (%d messages, last %q) although the stream stopped %d bytes before the end of the final fragment", len(ms), lastPayload(ms), len(wire)-cut)
+									return
+								}
+							}
+						}
+					}
+				}
+			}
+		}
+	}
+	hx.EvalN(n)
+	hx.Part("ReadMessage: {close x3, ping, pong} between the fragments of a 3-fragment message x every cut offset x {EOF, EOF with data, error} x chunk{all,1,3} x masked", int64(n), true)
+}
+
+func lastPayload(ms []wsutil.Message) []byte {
+	if len(ms) == 0 {
+		return nil
+	}
+	return ms[len(ms)-1].Payload
+}
